@@ -227,12 +227,18 @@ Fixpoint or_bits (masks : list Z) (bl : list bool) (acc : Z) : Z :=
   | _, _ => acc
   end.
 
-(* Finite, decidable: the i-th character decodes (inverse, masks) to the i-th bit list, and
+Fixpoint nodupb (l : list Z) : bool :=
+  match l with
+  | [] => true
+  | x :: l' => negb (existsb (Z.eqb x) l') && nodupb l'
+  end.
+
+(* Finite, decidable: the alphabet has no repeated character; the i-th character decodes (inverse, masks) to the i-th bit list, and
    OR-ing the masks of the i-th bit list indexes the i-th character; the coordinate ranges are
    symmetric and non-degenerate (lon_error/lat_error start at max_x/max_y). *)
 Definition cfg_okb (c : cfg) : bool :=
   let ab := all_bits (length (bits c)) in
-  (length (charset c) =? length ab)%nat &&
+  (length (charset c) =? length ab)%nat && nodupb (charset c) &&
   forallb (fun '(ch, bl) =>
              in_charset ch (charset c) &&
              match lookup ch (inverse c) with
